@@ -374,6 +374,12 @@ def obligations(tier, seed):
         out.append(r)
     out.append(sniff_closure_obligation(core))
     out += _gate(srv)
+    # the statuses the two refusals carry (the gate above decides which helper answers; this decides what the helper says)
+    from .httpstatus import obligation as _status
+    for helper, code in (("method_not_allowed", 405), ("unsupported_content_type", 415)):
+        out.append(_status(srv, helper, f"kernel:response::{helper}:status-{code}", (lambda c: lambda s: s == c)(code),
+                           f"the response built by response::{helper} carries HTTP status {code}",
+                           dict(scenario="c19_content_types", vars={}, fixed={}, region=z3.BoolVal(True)), f"status-{code}"))
     b_, viol_, reach_, bad_ = _proxy_get(srv)
     reach_l = R.live_reach(viol_, reach_, bad_)
     if bad_ or not all(reach_l):
